@@ -175,6 +175,9 @@ func checkC02Text(c SQLCase, text string) (f *report.Failure, rendered, hostile 
 		}
 	}()
 	cols, strs := provenance(c.toks(), c.DF)
+	// the same text rendered first under another default field: whatever a renderer keeps
+	// from that call (a cached tree, a pooled parser) must not leak a column into this one
+	_, _ = toPG(text, c.DF+"_of_the_previous_call")
 	if sql, err := toPG(text, c.DF); err == nil {
 		rendered = true
 		fl, h := checkSQLText("inline", sql, nil, cols, strs, c, text)
